@@ -24,8 +24,12 @@ XREF = ["        ORG $1000", "FIRST   LDX #LAST", "        BRA MIDDLE", "       
 # FCC strings are taken verbatim from the line: a TAB, a semicolon, runs of spaces and an unusual delimiter inside them
 STRINGS = ["        ORG $3000", "BEGIN   LDX #TEXT2", 'TEXT1   FCC "A\tB"', "TEXT2   FCC /semi;colon and  two spaces/", "TEXT3   FCC #hash#",
            "        LEAY TEXT1,PCR", "        BNE BEGIN", "AFTER   JMP TEXT3", "        FCB 1,2,3"]
+# every operand position with a label expression label+n / label-n / n+label
+EXPRS = ["        ORG $2800", "START   LDA TABLE+2,X", "        LDU [TABLE-2,Y]", "        LDX #TABLE+1", "        STA TABLE-1", "        JSR [TABLE+2]",
+         "        LEAX TABLE+2,PCR", "        LDA [TABLE-1,PCR]", "        BNE START+2", "        LDD 2+TABLE,S", "        JMP START-1", "TABLE   FCB 1,2,3,4",
+         "        LDY #START+$10", "        LBRA TABLE+1"]
 BIG = {"readme": [ln for ln in c13.README if ln.strip() and not ln.strip().startswith(";")], "xref": XREF,
-       "pcr": c13.PCRS, "strings": STRINGS}
+       "pcr": c13.PCRS, "strings": STRINGS, "exprs": EXPRS}
 
 
 def base_programs(tier):
